@@ -41,6 +41,9 @@ type packetNumberSpace struct {
 
 	largestAcked protocol.PacketNumber
 	largestSent  protocol.PacketNumber
+	// firstPN is the first packet number of this space: it is not always 0 (a spec can choose the
+	// first Initial packet number, and numbering continues after Version Negotiation and Retry)
+	firstPN protocol.PacketNumber
 }
 
 func newPacketNumberSpace(initialPN protocol.PacketNumber, isAppData bool) *packetNumberSpace {
@@ -55,6 +58,7 @@ func newPacketNumberSpace(initialPN protocol.PacketNumber, isAppData bool) *pack
 		pns:          pns,
 		largestSent:  protocol.InvalidPacketNumber,
 		largestAcked: protocol.InvalidPacketNumber,
+		firstPN:      initialPN,
 	}
 }
 
@@ -379,7 +383,7 @@ func (h *sentPacketHandler) ReceivedAck(ack *wire.AckFrame, encLevel protocol.En
 	pnSpace := h.getPacketNumberSpace(encLevel)
 
 	largestAcked := ack.LargestAcked()
-	if largestAcked > pnSpace.largestSent {
+	if largestAcked > pnSpace.largestSent || ack.LowestAcked() < pnSpace.firstPN {
 		return false, &qerr.TransportError{
 			ErrorCode:    qerr.ProtocolViolation,
 			ErrorMessage: "received ACK for an unsent packet",
